@@ -74,7 +74,8 @@ StringDictionaryPFC::StringDictionaryPFC(IteratorDictString *it,
 
     // Checking the available space in textStrings and
     // realloc if required
-    while ((bytesStrings + (2 * lenCurrent)) > reservedStrings)
+    // (a string takes at most lenCurrent + 2 bytes: VByte(lcp) + suffix + '\0')
+    while ((bytesStrings + (2 * lenCurrent) + 2) > reservedStrings)
       reservedStrings = Reallocate(&textStrings, reservedStrings);
 
     if ((elements % this->bucketsize) == 0) {
